@@ -236,6 +236,7 @@ def argparse_function(
                                     2
                                     if len(internal_body) > 1
                                     and isinstance(internal_body[1], Assign)
+                                    and isinstance(internal_body[1].targets[0], Name)
                                     and internal_body[1].targets[0].id
                                     == "argument_parser"
                                     else 1 :
